@@ -106,6 +106,8 @@ func (fr *Frame) fork() *Frame {
 }
 
 type Exec struct {
+	pruneCalls, prunePruned int
+	pruneNs                 float64 // time spent in solver-based pruning (budget per function)
 	eng          *Engine
 	root         *ssa.Function
 	rootName     string
@@ -227,7 +229,11 @@ func (st *State) AssumeCond(c *Term) {
 	// implications assumed earlier (callee postconditions "err == nil ==> ...") whose antecedent
 	// is now known: learn their consequents too (constant lengths etc.)
 	if c.Op == "=" || c.Op == "var" || c.Op == "not" {
-		for _, a := range st.assumes {
+		lo := len(st.assumes) - 120
+		if lo < 0 {
+			lo = 0
+		}
+		for _, a := range st.assumes[lo:] {
 			if a.Op == "=>" && !a.bound {
 				if ant := Subst(a.Args[0], st.substMap()); ant.IsTrue() {
 					st.learn(a.Args[1])
@@ -503,10 +509,22 @@ func (ex *Exec) runInstrs(fr *Frame, b *ssa.BasicBlock, start int, st *State, vi
 			// a branch that keeps forking at the same block (unrolled loop with a symbolic
 			// bound): decide feasibility with the solver so that bounded loops terminate
 			feas := ex.eng.feasible
-			if visits[b] > 3 || ex.paths >= 4 {
-				// many paths already: decide feasibility of further branches with the solver
-				// (infeasible branches are otherwise explored and discharged one by one)
+			if visits[b] > 3 {
 				feas = ex.eng.feasibleSolver
+			} else if ex.paths >= 4 && len(st.assumes) < 300 && !(ex.pruneCalls >= 6 && ex.prunePruned*3 < ex.pruneCalls) && (ex.pruneNs < 8e9 || ex.prunePruned*2 >= ex.pruneCalls) {
+				// many paths already: decide feasibility of further branches with the solver
+				// (infeasible branches are otherwise explored and discharged one by one);
+				// given up for this function when it hardly ever prunes anything
+				feas = func(st *State) bool {
+					ex.pruneCalls++
+					t0 := time.Now()
+					ok := ex.eng.feasibleSolver(st)
+					ex.pruneNs += float64(time.Since(t0).Nanoseconds())
+					if !ok {
+						ex.prunePruned++
+					}
+					return ok
+				}
 			}
 			st1 := st.Clone()
 			st1.AssumeCond(c)
